@@ -570,7 +570,7 @@ func c17Pairing(a *An, kf *kqFacts) {
 			var subj string
 			for _, c := range v.Cond {
 				for _, l := range c {
-					if (l.A.Kind == AkBit || l.A.Kind == AkAny) && strings.HasSuffix(l.A.Subj, ".Op") {
+					if (l.A.Kind == AkBit || l.A.Kind == AkAny) && isOpSubj(l.A) {
 						subj = l.A.Subj
 					}
 				}
@@ -728,7 +728,7 @@ func c17Close(a *An, kf *kqFacts) {
 	wake := false
 	for _, c := range unixCloseVisits(w) {
 		call := c.Instr.(*ssa.Call)
-		if c.Ctx.Parent == nil && strings.Contains(c.Ctx.path(call.Call.Args[0]), "pipe") {
+		if strings.Contains(c.Ctx.path(call.Call.Args[0]), "pipe") { // at any depth below Close (a shutdown() helper)
 			wake = true
 		}
 	}
@@ -869,6 +869,55 @@ func c17WatchList(a *An, kf *kqFacts) {
 				}
 			}
 			a.R.ob("C17.4", key, "releasing a watch (path-table delete) also deletes the path from the user-watch table", a.P.instrPos(v.Instr), okc, wit)
+		}
+	}
+	// inside one removal, nothing is decided by looking an entry up after it was deleted (such a lookup can only miss: a
+	// "is it a directory?" test placed behind the table delete silently turns the recursion over the entries off)
+	for _, root := range append([]*ssa.Function{ro.API["Remove"], ro.API["Close"]}, ro.Readers...) {
+		if root == nil {
+			continue
+		}
+		rw := a.walk(root)
+		outer := func(c *Ctx) *Ctx { // outermost removal context on the chain
+			var o *Ctx
+			for x := c; x != nil && x.Parent != nil; x = x.Parent {
+				if kf.removal[x.Fn] {
+					o = x
+				}
+			}
+			return o
+		}
+		type del struct {
+			v   *Visit
+			key string
+		}
+		var dels []del
+		for _, v := range rw.Visits {
+			if args, ok := isBuiltinCall(v.Instr, "delete"); ok && v.Ctx.fieldOfValue(args[0]) == kf.pathTable && outer(v.Ctx) != nil {
+				dels = append(dels, del{v, stripIDs(v.Ctx.path(args[1]))})
+			}
+		}
+		seenK := map[string]bool{}
+		for _, v := range rw.Visits {
+			lk, ok := v.Instr.(*ssa.Lookup)
+			if !ok || v.Ctx.fieldOfValue(lk.X) != kf.pathTable {
+				continue
+			}
+			o := outer(v.Ctx)
+			if o == nil {
+				continue
+			}
+			k := stripIDs(v.Ctx.path(lk.Index))
+			for _, d := range dels {
+				if d.key == k && outer(d.v.Ctx) == o && precedesAlways(d.v, v) {
+					key := sprintf("%s:no-lookup-after-delete(%s)", shortFn(root), tail(stripCallArgs(k), 50))
+					if !seenK[key] {
+						seenK[key] = true
+						a.R.ob("C17.2", key, "within one removal the path table is not consulted for a key that was just deleted from it", a.P.instrPos(lk), false,
+							"looked up at "+a.P.instrPos(lk)+" after the delete at "+a.P.instrPos(d.v.Instr))
+					}
+				}
+			}
 		}
 	}
 	// the exported Remove reaches the removal unconditionally (once it is known that the watcher is open): no state of
